@@ -737,6 +737,9 @@ func (w *World) exec(line string) Result {
 	case "dump":
 		return Result{Line: "ok"}
 	case "genesis":
+		if w.Real {
+			return w.genesisApp()
+		}
 		return w.genesisRoundTrip()
 	}
 	return Result{Line: "bad-op"}
